@@ -141,6 +141,20 @@ def check_lookups(ctx, sc):
                 return
 
 
+def check_receiver_slot(ctx, sc):
+    """Object level: what `collect_energy_receiver_patchwise` returns for a patch is the histogram
+    of the outgoing slot nearest (in angle, wall frame) to the direction towards the receiver.
+    A histogram long enough that nothing is delayed past its end (the wrap is C02/C11's D3)."""
+    from . import c11
+    sc2 = dict(sc, K=0, S=sc['long_bins'] + 5)
+    before = len(ctx.violations)
+    c11.check_receivers(ctx, sc2)
+    # everything the receiver oracle reports here concerns the direction lookup, except the known wrap
+    ctx.violations[before:] = [v for v in ctx.violations[before:] if not v['signature'].startswith('receiver-wrap')]
+    for v in ctx.violations[before:]:
+        v['signature'] = 'lookup-receiver:' + v['signature']
+
+
 def run(ctx):
     corr_frames(ctx, 30 if ctx.tier == 'quick' else 600)
     n_s = 3 if ctx.tier == 'quick' else 20
@@ -155,6 +169,7 @@ def run(ctx):
         pipeline.corr_collect(ctx, r, sc['recs'][0])
         ctx.nontriv(energy.describe(sc))
         check_lookups(ctx, sc)
+        check_receiver_slot(ctx, sc)
 
 
 def oracle(ctx, budget_s=60):
@@ -163,6 +178,7 @@ def oracle(ctx, budget_s=60):
     while t.s() < budget_s and not ctx.violations:
         sc = energy.gen_scene(ctx.rng, small=True, multi_dir=True)
         check_lookups(ctx, sc)
+        check_receiver_slot(ctx, sc)
 
 
 def replay(ctx, rp):
